@@ -186,10 +186,12 @@ class Engine:
                 self._sub_n = n
             # literals are recorded in simplified (normalised) form, so normalise before matching them
             t = z3.simplify(t)
-            t2 = z3.z3._to_expr_ref(z3.Z3_substitute(t.ctx.ref(), t.as_ast(), n, self._sub_from, self._sub_to), t.ctx)
-            if t2.eq(t):
-                return t
-            t = t2
+            for _ in range(4):      # substitution is simultaneous: an equality x -> y may expose another decided literal; iterate to a fixpoint
+                t2 = z3.z3._to_expr_ref(z3.Z3_substitute(t.ctx.ref(), t.as_ast(), n, self._sub_from, self._sub_to), t.ctx)
+                if t2.eq(t):
+                    return t
+                t = z3.simplify(t2)
+            return t
         return z3.simplify(t)
 
     def _learn(self, cond, v):
